@@ -10,7 +10,7 @@ From Coq Require Import Permutation.
 From BR Require Import Base.Prelude Model.LRU Proofs.LRU_inv.
 From BR Require Import Model.Disk Proofs.Disk_ack Proofs.Disk_fun_fm Proofs.Disk_fun_put Proofs.Disk_fun_get.
 From BR Require Import Proofs.ACDeps_base.
-From BR Require Import Model.ActionResult Model.ACDeps Proofs.ACDeps_spec Proofs.ACDeps_props.
+From BR Require Import Model.ActionResult Model.ACDeps Proofs.ACDeps_spec Proofs.ACDeps_props Proofs.ACDeps_backend.
 Open Scope Z_scope.
 
 (* A hit returns the decoding [ar] of the stored AC entry, [ar] is valid, and — with [ts] the decoded
@@ -125,4 +125,111 @@ Example C06_example :
           [(CAS, "e"%char); (AC, "1"%char); (CAS, "a"%char); (CAS, "f"%char); (CAS, "b"%char); (CAS, "c"%char); (CAS, "d"%char)] /\
   snd (run common) = ACMiss /\
   snd (run (put CAS (mkDigest (h "c"%char) 31) 5 :: common)) = ACMiss.
+Proof. cbv zeta. vm_compute. repeat split; reflexivity. Qed.
+
+(* ------------------------------------------------------------------ *)
+(* WITH a backend.  The theorems below hold for EVERY configuration [c] (backend configured or not,
+   any max_proxy_blob_size) and every Contains behaviour [has_of] of the backend, under the one
+   assumption that the backend MISSES on Get ([forall h, b_of h = BMiss]): the AC entry and the Tree
+   blobs are then read from the local cache, and the fail-fast find-missing asks the backend exactly
+   for the locally absent digests that are within max_proxy_blob_size. *)
+
+(* A hit implies that every referenced digest is present locally with the stated size (the empty
+   blob always is), or the backend was asked — the digest is within max_proxy_blob_size — and said
+   yes.  Never "absent locally and larger than max_proxy_blob_size", never "absent locally and the
+   backend said no". *)
+Theorem C06_hit_sound_backend : forall c dec_ar dec_tree b_of has_of,
+  (forall h, b_of h = BMiss) ->
+  forall d key d' ar, Inv (lru d) ->
+  get_validated c dec_ar dec_tree b_of has_of d key = (d', ACHit ar) ->
+  ac_entry dec_ar d key ar /\ valid ar = true /\
+  exists ts, trees_read dec_tree d (somes (ar_dirs ar)) ts /\
+    forall g, In g (referenced ar ts) ->
+      present_local (lru d) (hash g, size_bytes g) = true \/
+      (c_proxy c = true /\ size_bytes g <= c_maxproxy c /\ exists x, has_of (hash g) = BHasYes x).
+Proof. exact hit_sound_backend. Qed.
+Print Assumptions C06_hit_sound_backend.
+
+(* Entry valid, trees readable, and some referenced digest is absent locally (or held with another
+   size) while it may not be asked from the backend (none configured, or larger than
+   max_proxy_blob_size) or the backend says no: the outcome is a MISS. *)
+Theorem C06_absent_is_miss_backend : forall c dec_ar dec_tree b_of has_of,
+  (forall h, b_of h = BMiss) ->
+  forall d key ar ts d' o g, Inv (lru d) ->
+  get_validated c dec_ar dec_tree b_of has_of d key = (d', o) ->
+  ac_entry dec_ar d key ar -> valid ar = true -> trees_read dec_tree d (somes (ar_dirs ar)) ts ->
+  In g (referenced ar ts) -> present_local (lru d) (hash g, size_bytes g) = false ->
+  (c_proxy c = false \/ size_bytes g > c_maxproxy c \/ has_of (hash g) = BHasNo) ->
+  o = ACMiss.
+Proof. exact absent_is_miss_backend. Qed.
+Print Assumptions C06_absent_is_miss_backend.
+
+(* Conversely: every referenced digest local, or within the limit and vouched for by the backend → hit. *)
+Theorem C06_complete_backend : forall c dec_ar dec_tree b_of has_of,
+  (forall h, b_of h = BMiss) ->
+  forall d key ar ts, Inv (lru d) ->
+  ac_entry dec_ar d key ar -> valid ar = true -> trees_read dec_tree d (somes (ar_dirs ar)) ts ->
+  (forall g, In g (referenced ar ts) ->
+     present_local (lru d) (hash g, size_bytes g) = true \/
+     (c_proxy c = true /\ size_bytes g <= c_maxproxy c /\ exists x, has_of (hash g) = BHasYes x)) ->
+  exists d', get_validated c dec_ar dec_tree b_of has_of d key = (d', ACHit ar).
+Proof. exact hit_complete_backend. Qed.
+Print Assumptions C06_complete_backend.
+
+(* A hit touches the AC entry, the tree blobs and every pending digest held locally (a touch of an
+   absent key does nothing), in this order; index contents, counters, directory and backend queue are
+   unchanged: the dependency check fetches and writes nothing. *)
+Theorem C06_hit_touches_backend : forall c dec_ar dec_tree b_of has_of,
+  (forall h, b_of h = BMiss) ->
+  forall d key d' ar, Inv (lru d) ->
+  get_validated c dec_ar dec_tree b_of has_of d key = (d', ACHit ar) ->
+  exists ts, trees_read dec_tree d (somes (ar_dirs ar)) ts /\
+    let ks := hit_keys key ar ts in
+    lru d' = touch_all ks (lru d) /\
+    order (lru d') = fold_left (fun o k => touch k o) ks (order (lru d)) /\
+    (exists T, order (lru d') = filter (fun e => negb (touched ks e)) (order (lru d)) ++ T /\
+               Permutation T (filter (touched ks) (order (lru d)))) /\
+    LruSame (lru d) (lru d') /\ Disk.files d' = Disk.files d /\ handed d' = handed d /\ Inv (lru d').
+Proof. exact hit_touches_backend. Qed.
+Print Assumptions C06_hit_touches_backend.
+
+(* Once entry and trees are read locally the outcome is a hit or a miss — never an error — and
+   nothing but the recency order changes, whatever the backend answers. *)
+Theorem C06_deps_check_frame_backend : forall c dec_ar dec_tree b_of has_of,
+  (forall h, b_of h = BMiss) ->
+  forall d key ar ts d' o, Inv (lru d) ->
+  ac_entry dec_ar d key ar -> valid ar = true -> trees_read dec_tree d (somes (ar_dirs ar)) ts ->
+  get_validated c dec_ar dec_tree b_of has_of d key = (d', o) ->
+  Disk.files d' = Disk.files d /\ handed d' = handed d /\ Inv (lru d') /\ LruSame (lru d) (lru d') /\
+  (o = ACHit ar \/ o = ACMiss).
+Proof. exact deps_check_frame. Qed.
+Print Assumptions C06_deps_check_frame_backend.
+
+(* Non-vacuity.  The ActionResult of [C06_example]; the child's file (30 bytes) is held by the backend
+   only.  max_proxy_blob_size 30: asked, backend says yes → hit; max_proxy_blob_size 29: may not be
+   asked → miss; within the limit but the backend says no → miss; and a 3000-byte stdout that is
+   inlined AND referenced, held by the backend only, with the limit at 2999 → miss, at 3000 → hit. *)
+Example C06_example_backend :
+  let h x := string_of_list_ascii (repeat x 64) in
+  let F := mkDigest (h "f"%char) 10 in let T := mkDigest (h "a"%char) 50 in
+  let R := mkDigest (h "b"%char) 20 in let C := mkDigest (h "c"%char) 30 in
+  let S := mkDigest (h "d"%char) 3000 in
+  let ar := mkAR [Some (mkOF "o.txt" (Some F) false no_bytes)]
+                 [] [] [Some (mkOD "dir" (Some T))] [] 0 (mkBytes 3000 (h "d"%char)) (Some S) no_bytes None None in
+  let tr := mkTree (Some (mkDir [Some (mkFN "r" (Some R) false)] [] []))
+                   [Some (mkDir [Some (mkFN "c" (Some C) true)] [] [])] in
+  let cfg_of mp := mkCfg false 1000000 mp true in
+  let dec_ar := fun cid => if cid =? 1 then Some ar else None in
+  let dec_tree := fun cid => if cid =? 3 then Some tr else None in
+  let put k g cid := RPut k (hash g) (size_bytes g) (mkStream cid (size_bytes g) false true (size_bytes g)) "x" in
+  let setup := [put CAS F 2; put CAS T 3; put CAS R 4; put AC (mkDigest (h "1"%char) 100) 1] in
+  let run mp has extra := snd (get_validated (cfg_of mp) dec_ar dec_tree (fun _ => BMiss) (fun x => has_lookup x has)
+                     (fold_left (fun d r => fst (exec (cfg_of mp) d r)) (extra ++ setup) (dinit 1000000 0)) (h "1"%char)) in
+  valid ar = true /\ referenced ar [tr] = [F; T; R; C; S] /\
+  run 30 [(h "c"%char, BHasYes 30)] [put CAS S 6] = ACHit ar /\
+  run 29 [(h "c"%char, BHasYes 30)] [put CAS S 6] = ACMiss /\
+  run 30 [(h "c"%char, BHasNo)] [put CAS S 6] = ACMiss /\
+  run 30 [] [put CAS S 6] = ACMiss /\
+  run 2999 [(h "d"%char, BHasYes 3000)] [put CAS C 5] = ACMiss /\
+  run 3000 [(h "d"%char, BHasYes 3000)] [put CAS C 5] = ACHit ar.
 Proof. cbv zeta. vm_compute. repeat split; reflexivity. Qed.
